@@ -140,6 +140,17 @@ CHECKS = {
             "partial: the pairwise write/read theorems need the WebVTT/SSA/TTML/STL/teletext codec models, which do not exist yet "
             "(SubRip: C01); texts are plain Latin words; styled and metadata-bearing sources are exercised by C08/C19 for panics and "
             "determinism only."),
+    "C20": (True,
+            "Theorems: (i) frame property - in an interleaving semantics where steps only read the shared store, every thread ends, under "
+            "ANY schedule, in the state it reaches alone; (ii) instance - the write-effect summary regenerated on every run from the go/ssa "
+            "form of the package (every store, map update, copy/delete and Set*/Add*/Delete* method call whose target derives from a "
+            "package-level variable, 156 functions analysed) contains no write outside the package initialiser, by vm_compute on the "
+            "generated list. Runtime half, observed only: a race-detector build of the harness runs a multiset of independent operations "
+            "(6 readers, 5 writers, all transformations, read-then-convert) on 2..32 goroutines with GOMAXPROCS 2/4/16, randomized start "
+            "order, and compares every result with the sequential run.",
+            "Rocq frame theorem over a generated write-effect summary (translator: go/ssa) - partial; race-detector runs compared with sequential results",
+            "partial: the Go memory model, the mutex inside astikit's BiMap and heap aliasing not followed by the intra-procedural "
+            "derivation (pointers passed as parameters) are not modelled; tools/geneffects (x/tools v0.29.0 go/ssa) is trusted."),
 }
 
 PENDING = "check not built yet in this session (work in progress; see DESIGN.md section 7 for the plan)"
